@@ -25,7 +25,7 @@ def _anchored_names(prop):
 
 def report(ck, prop, srcs, limit=6000):
     tgt = os.path.join(common.WORK, "tgt-cov")
-    crate = os.path.join(common.VERIF, "harness/xdrv")
+    crate = common.harness_dir("xdrv")
     ok, out = common.cargo_build(crate, tgt, extra=["--features", "s1"], toolchain="nightly", rustflags="-Cinstrument-coverage")
     if not ok:
         ck.note_inconclusive("coverage build failed: " + out[-300:])
